@@ -17,6 +17,8 @@ from concurrent.futures import ProcessPoolExecutor
 from dataclasses import asdict
 
 ROOT = os.path.dirname(os.path.dirname(os.path.abspath(__file__)))
+# development only (mutation runs on a scratch copy): PYVC_REPO points the checks at another tree, PYVC_OUT receives evidence/ and replay/
+OUT = os.environ.get("PYVC_OUT") or ROOT
 sys.path.insert(0, ROOT)
 
 from pyvc import registry  # noqa: E402
@@ -252,7 +254,7 @@ def run_property(prop, tier, seed, level, explanation="", trusted_base=(), worke
     solver_s = 0.0
     notes, functions_seen, samples = [], {}, []
     declared_functions = set()
-    replay_dir = os.path.join(ROOT, "replay", prop)
+    replay_dir = os.path.join(OUT, "replay", prop)
     if os.path.isdir(replay_dir):
         for f in os.listdir(replay_dir):
             if f.endswith(".json"):
@@ -412,8 +414,8 @@ def run_property(prop, tier, seed, level, explanation="", trusted_base=(), worke
         violations=len(violations),
         known_findings=[e.get("text") for e, _ in known_hits],
     )
-    os.makedirs(os.path.join(ROOT, "evidence"), exist_ok=True)
-    with open(os.path.join(ROOT, "evidence", f"{prop}.json"), "w") as f:
+    os.makedirs(os.path.join(OUT, "evidence"), exist_ok=True)
+    with open(os.path.join(OUT, "evidence", f"{prop}.json"), "w") as f:
         json.dump(evidence, f, indent=1, default=str)
     print(f"{prop} tier={tier}: obligations={n_ob} discharged={n_dis} known={n_known} new-violations={len(violations)} undecided={len(undecided)} "
           f"errors={len(crashes)} bounded-evals={bounded_eval} wall={wall:.1f}s")
